@@ -24,8 +24,10 @@ META = dict(
          "frame, out-of-order answer, truncated frame, oversized length, abrupt close), the read timeout firing at any "
          "time and Close racing, and checks OwnResponseOrError, MismatchNeverDelivered, AfterFaultAllFail, the in-flight "
          "bound the code really guarantees (Max+1; the property's bound Max is shown to fail on the model) and that every "
-         "started call and Close return. Every conductor-reproducible behaviour of 3 callers x Max in {1,2} and seeded "
-         "random behaviours of 6 callers x 2 calls x Max in {1,2,5} are replayed on the real Broker over loopback TCP; "
+         "started call and Close return. Every conductor-reproducible behaviour of 3 callers x Max in {1,2} with one fault, "
+         "of 2 callers with a fault and a read timeout (thorough: also 4 callers x Max in {1,2,3}), impatient re-runs of the "
+         "late-answer behaviours, and seeded random behaviours of 6 callers x 2 calls x Max in {1,2,5} are replayed on the "
+         "real Broker over loopback TCP; "
          "each MetadataRequest carries a unique topic name that the server echoes, so responses are attributable; the "
          "in-flight count is computed by the trace spec from server-side events only.",
     note="bounded model; real executions cover the schedules the conductor can force from outside (start of calls, "
@@ -62,12 +64,12 @@ def canon(case):
 
 
 def gen_cases(ctx, out):
-    runs = [("BrokerConn.gen.cfg", None, "gen")]
+    runs = [("BrokerConn.gen.cfg", None, "gen"), ("BrokerConn.gen2.cfg", None, "gen2")]
     if ctx.tier == "thorough":
         runs.append(("BrokerConn.gen4.cfg", None, "gen4"))
         runs.append(("BrokerConn.sim.cfg", "num=6000", "sim"))
     else:
-        runs.append(("BrokerConn.sim.cfg", "num=250", "sim"))
+        runs.append(("BrokerConn.sim.cfg", "num=400", "sim"))
     seen = set()
     cases = []
     stats = []
@@ -77,7 +79,7 @@ def gen_cases(ctx, out):
         if sim:
             results[src] = ctx.tlc("BrokerConn", cfg, workers=1, timeout=900, simulate=sim, depth=400, seed=ctx.seed, name="sim")
         else:
-            results[src] = ctx.tlc("BrokerConn", cfg, workers=8, timeout=1500, name=src)
+            results[src] = ctx.tlc("BrokerConn", cfg, workers=2 if src == "gen2" else 8, timeout=1500, name=src)
     ths = [threading.Thread(target=one, args=x) for x in runs]
     for t in ths:
         t.start()
@@ -106,6 +108,23 @@ def gen_cases(ctx, out):
             k += 1
         stats.append({"cfg": cfg, "behaviours_emitted": emitted, "distinct_cases": k,
                       "states": r.distinct, "generated": r.generated, "exhaustive": sim is None})
+    # impatient re-runs: a behaviour in which the server still sends something after the read timeout is
+    # replayed a second time with the conductor waiting only for the FIRST of the returns the model expects
+    # before it goes on (also a behaviour of the unrestricted model: the peer may act at any time) - a
+    # late / out-of-order answer then meets a client that is still failing its outstanding promises
+    extra = []
+    for c in cases:
+        if c["src"] != "gen2":
+            continue
+        acts = [(x["a"], x["kind"]) for x in c["steps"]]
+        if ("timeout", "-") in acts and any(a == "srv" for a, _ in acts[acts.index(("timeout", "-")):]):
+            d = dict(c, src="gen2-impatient", impatient=True)
+            extra.append(d)
+    for d in extra:
+        d["id"] = len(cases) + 1
+        cases.append(d)
+    stats.append({"cfg": "impatient re-runs of BrokerConn.gen2.cfg behaviours", "behaviours_emitted": len(extra),
+                  "distinct_cases": len(extra), "states": 0, "generated": 0, "exhaustive": False})
     if not cases:
         raise vlib.Inconclusive("no behaviours generated")
     with open(out, "w") as f:
